@@ -1,0 +1,38 @@
+//go:build verif
+// +build verif
+
+package scheduler
+
+import "time"
+
+// Verification hooks (build tag "verif"). Nothing here is compiled into normal builds.
+
+// VerifPassHook is called at the end of every pass of the scheduling loop, before the pause.
+var VerifPassHook func(s *Scheduler, g *ExecutionGraph)
+
+// VerifStatusHook is called by UpdateStatus before the new status becomes visible.
+var VerifStatusHook func(stage *Stage, status int32)
+
+// VerifScheduleHook is called on entry to and return from Schedule.
+var VerifScheduleHook func(s *Scheduler, g *ExecutionGraph, enter bool, err error)
+
+// VerifSetPause changes the pause between two passes of the scheduling loop.
+func (s *Scheduler) VerifSetPause(d time.Duration) { s.pause = d }
+
+func verifPass(s *Scheduler, g *ExecutionGraph) {
+	if h := VerifPassHook; h != nil {
+		h(s, g)
+	}
+}
+
+func verifStatus(stage *Stage, status int32) {
+	if h := VerifStatusHook; h != nil {
+		h(stage, status)
+	}
+}
+
+func verifSchedule(s *Scheduler, g *ExecutionGraph, enter bool, err error) {
+	if h := VerifScheduleHook; h != nil {
+		h(s, g, enter, err)
+	}
+}
